@@ -37,7 +37,7 @@ def REQUIRED(tier):
 
 def _required(tier):
     return ["snapshots_taken", "snapshot_prefix_checks", "kill_children", "kill:died_at_point", "kill:survivor_opened", "truncations", "strace_runs", "strace_write_events",
-            "writers_covered", "snapshot:preexisting_output", "kill:preexisting_output", "snapshot:product_over_1MiB", "kill:unwound_by_exception", "strace:header_over_512_bytes_confirmed", "rewrites_of_an_opened_name", "rewrite:equal_length_products", "snapshot:product_ending_in_zero_blocks"]
+            "writers_covered", "snapshot:preexisting_output", "kill:preexisting_output", "snapshot:product_over_1MiB", "kill:unwound_by_exception", "strace:header_over_512_bytes_confirmed", "rewrites_of_an_opened_name", "rewrite:equal_length_products", "snapshot:product_ending_in_zero_blocks", "diskfull:writer_raised"]
 
 
 def EXHAUSTIVE(tier):
@@ -66,6 +66,9 @@ def cases(tier, seed):
         if tier == "thorough":
             for k in range(0, 30, 1):
                 yield {"kind": "kill", "writer": w, "gulp": 1, "k": k}
+    for w in c20_scen.LIMIT_WRITERS:
+        for cut in (20000, 4096) if tier == "quick" else (20000, 4096, 32768, 40000, 8192):
+            yield {"kind": "diskfull", "writer": w, "cut": cut}
     for nbits in (1, 2, 4, 8, 16, 32):
         yield {"kind": "truncate", "nbits": nbits, "seed": int(seed)}
     for i in range(5):
@@ -113,7 +116,7 @@ def _newdir(ctx, tag):
 
 
 def run_case(case, ctx):
-    {"snapshot": _snapshot, "kill": _kill, "truncate": _truncate, "strace": _strace, "rewrite": _rewrite}[case["kind"]](case, ctx)
+    {"snapshot": _snapshot, "kill": _kill, "truncate": _truncate, "strace": _strace, "rewrite": _rewrite, "diskfull": _diskfull}[case["kind"]](case, ctx)
 
 
 def _snapshot(case, ctx):
@@ -211,6 +214,36 @@ def _reference(ctx, writer, gulp):
         cache[key] = ({os.path.basename(p): open(p, "rb").read() for p in outs}, nwrites)
         shutil.rmtree(d, ignore_errors=True)
     return cache[key]
+
+
+def _diskfull(case, ctx):
+    """The writer runs under a file-size limit that cuts the last block short: it either raises, or what it returns is complete."""
+    w = case["writer"]
+    ref, nwrites = _reference(ctx, w, 2048)
+    (name, want), = list(ref.items())[:1]
+    d = _newdir(ctx, "f")
+    ctx.evaluated(); ctx.count("diskfull_children")
+    try:
+        res = _child(w, d, 2048, -1, flags=(f"fsize={len(want) - int(case['cut'])}",))
+    except subprocess.TimeoutExpired:
+        ctx.skip("child watchdog"); return
+    path = os.path.join(d, name)
+    got = open(path, "rb").read() if os.path.exists(path) else b""
+    if res.returncode == 0:
+        ctx.count("diskfull:writer_returned_normally")
+        if got != want:
+            ctx.violation(f"returned-normally-with-incomplete-product:{w}", f"{name}: the writer returned without an error under a file-size limit, leaving {len(got)} of {len(want)} bytes", case)
+            return
+    else:
+        if "Error" not in res.stderr:
+            ctx.violation(f"child-failed:{w}", f"child exited {res.returncode} without an exception: {res.stderr[-300:]}", case)
+            return
+        ctx.count("diskfull:writer_raised")
+        if not want.startswith(got):
+            ctx.violation(f"survivor-not-prefix:{w}:after-refused-write", f"{name}: the {len(got)} bytes left behind by the failed writer are not a prefix of the {len(want)}-byte product", case)
+            return
+    ctx.nontrivial_case(case)
+    shutil.rmtree(d, ignore_errors=True)
 
 
 def _kill(case, ctx):
